@@ -274,10 +274,15 @@ func dischargeVC(x *Exec, o *Obligation, opts verifyOpts) (Result, bool) {
 	var r, qfRes Result
 	disagree := false
 	prevText := ""
-	for _, forward := range []bool{false, true} {
+	for attempt, forward := range []bool{false, false, true} {
 		xx := *x
 		xx.qfForward = forward
-		q := (&xx).buildQueryM(o, opts.depth, 6, true)
+		rounds := 6
+		if attempt == 0 {
+			// most safety conditions and arithmetic invariants need no quantifier instance at all
+			rounds = 0
+		}
+		q := (&xx).buildQueryM(o, opts.depth, rounds, true)
 		text := q.smtlib(false, "z3")
 		h := sha256.Sum256([]byte("qf" + text))
 		key := string(h[:])
@@ -295,7 +300,7 @@ func dischargeVC(x *Exec, o *Obligation, opts verifyOpts) (Result, bool) {
 		if qr.Status == "unsat" {
 			return qr, disagree
 		}
-		if !forward {
+		if attempt == 1 {
 			r = qr
 			qfRes = qr
 		}
